@@ -48,4 +48,109 @@ theorem reindex_old_is_old {α} {a : Samples α} {cs : List Rat} {fill : α} (hn
   rw [find_of_mem_nodup (c := c) (d := q.2) hnd hq]
   exact hq
 
+/-! ### histories: the class of regular axes with a known step is closed under the operations -/
+
+theorem filter_le_sorted {α} (a : Samples α) (hi : Rat) (h : Sorted (coordsOf a)) :
+    ∃ k, a.filter (fun p => decide (p.1 ≤ hi)) = a.take k := by
+  induction a with
+  | nil => exact ⟨0, rfl⟩
+  | cons x xs ih =>
+    simp only [coordsOf, List.map_cons] at h
+    have hx : ∀ y ∈ xs, x.1 ≤ y.1 := by
+      intro y hy
+      exact (List.pairwise_cons.mp h).1 y.1 (List.mem_map.mpr ⟨y, hy, rfl⟩)
+    obtain ⟨k, hk⟩ := ih (List.pairwise_cons.mp h).2
+    by_cases hxh : x.1 ≤ hi
+    · exact ⟨k + 1, by simp [hxh, hk]⟩
+    · refine ⟨0, ?_⟩
+      simp only [List.take_zero, List.filter_eq_nil_iff]
+      intro y hy
+      rcases List.mem_cons.mp hy with rfl | hy
+      · simpa using hxh
+      · have := hx y hy
+        simp; grind
+
+/-- a label slice of an increasing axis is a contiguous block of samples -/
+theorem selectRange_sorted {α} (a : Samples α) (lo hi : Rat) (h : Sorted (coordsOf a)) :
+    ∃ i k, selectRange a lo hi = (a.drop i).take k := by
+  induction a with
+  | nil => exact ⟨0, 0, rfl⟩
+  | cons x xs ih =>
+    have h' := h
+    simp only [coordsOf, List.map_cons] at h'
+    have hx : ∀ y ∈ xs, x.1 ≤ y.1 := by
+      intro y hy
+      exact (List.pairwise_cons.mp h').1 y.1 (List.mem_map.mpr ⟨y, hy, rfl⟩)
+    by_cases hlo : lo ≤ x.1
+    · obtain ⟨k, hk⟩ := filter_le_sorted (x :: xs) hi h
+      refine ⟨0, k, ?_⟩
+      rw [List.drop_zero, ← hk]
+      apply List.filter_congr
+      intro y hy
+      have : lo ≤ y.1 := by
+        rcases List.mem_cons.mp hy with rfl | hy
+        · exact hlo
+        · have := hx y hy; grind
+      simp [this]
+    · obtain ⟨i, k, hik⟩ := ih (List.pairwise_cons.mp h').2
+      refine ⟨i + 1, k, ?_⟩
+      simp only [selectRange] at hik ⊢
+      simp [hlo, hik]
+
+/-- a label slice of a regular axis is a contiguous piece of its lattice -/
+theorem selectRange_lattice {α} (a : Samples α) (lo hi a0 step : Rat) (m : Nat) (hs : 0 ≤ step)
+    (hreg : coordsOf a = lattice a0 step m) :
+    ∃ i k : Nat, selectRange a lo hi = (a.drop i).take k ∧
+      coordsOf (selectRange a lo hi) = lattice (a0 + (i : Rat) * step) step (min k (m - i)) := by
+  obtain ⟨i, k, hik⟩ := selectRange_sorted a lo hi (by rw [hreg]; exact lattice_sorted _ _ _ hs)
+  refine ⟨i, k, hik, ?_⟩
+  rw [hik, coordsOf_drop_take, hreg, lattice_drop, lattice_take]
+
+/-- the array lies on the lattice `a0 + k * step` (k an integer), is not empty, and `get_dim_step`
+    yields `step` for it -/
+def OnLattice {α} (a0 step : Rat) (attr : Option Rat) (a : Samples α) : Prop :=
+  ∃ (k : Int) (m : Nat), coordsOf a = lattice (a0 + (k : Rat) * step) step (m + 1) ∧
+    dimStep attr (coordsOf a) = .ok (some step)
+
+/-- the step of a regular axis stays known on every piece / continuation of its lattice that has at
+    least two points, or at least one when the step is an attribute -/
+theorem dimStep_again (attr : Option Rat) (a0 b0 step : Rat) (n m : Nat)
+    (h : dimStep attr (lattice a0 step (n + 1)) = .ok (some step)) (hm : attr.isSome ∨ 1 ≤ m) :
+    dimStep attr (lattice b0 step (m + 1)) = .ok (some step) := by
+  cases attr with
+  | some s => simpa [dimStep] using h
+  | none =>
+    have hm' : 1 ≤ m := by simpa using hm
+    obtain ⟨j, rfl⟩ : ∃ j, m = j + 1 := ⟨m - 1, by omega⟩
+    exact dimStep_lattice b0 step j
+
+theorem applyStep_nil {α} (attr : Option Rat) (s : Step α) : ∃ e, applyStep attr ([] : Samples α) s = .error e := by
+  cases s with
+  | crop start stop lc rc eps => exact ⟨.invalid, by simp [applyStep, cropDim, coordsOf, listMin]⟩
+  | extend start stop fill eps lc rc => exact ⟨.invalid, by simp [applyStep, extendDim, coordsOf, listMin]⟩
+  | width w fill pos =>
+    simp only [applyStep, adjustWidth]
+    by_cases h1 : w < 1
+    · exact ⟨.invalid, by simp [h1]⟩
+    · have h2 : ¬ w.toNat = 0 := by omega
+      refine ⟨.index, ?_⟩
+      simp [h1, h2, extendWidth, coordsOf]
+
+
+theorem extendDim_is_reindex {α} (a r : Samples α) (attr start stop : Option Rat) (fill : α) (eps : Rat)
+    (lc rc : Bool) (h : extendDim a attr start stop fill eps lc rc = .ok r) :
+    ∃ cs, r = reindex a cs fill := by
+  simp only [extendDim] at h
+  split at h
+  · split at h
+    · simp at h
+    · split at h
+      · simp at h
+      · split at h
+        · simp at h
+        · simp at h
+        · exact ⟨_, (Except.ok.inj h).symm⟩
+  · simp at h
+
+
 end SE.Axis
